@@ -17,6 +17,10 @@ for s in range(16):
     for sig, w in r['violations'].items(): seen.setdefault(sig, w)
     for k, (n, w) in r['known'].items(): known[k] = known.get(k, 0) + n
 for sig, w in seen.items():
-    if pat in sig: print('SIG', sig, '\n    ', json.dumps(w)[:700])
+    if pat in sig:
+        if os.environ.get('SHORT'):
+            print({k: w.get(k) for k in ('pattern', 'path', 'name', 'flags', 'expected', 'observed') if k in w})
+        else:
+            print('SIG', sig, '\n    ', json.dumps(w)[:700])
 print('known:', known, 'distinct sigs:', len(seen))
 import shutil; shutil.rmtree(d)
